@@ -158,3 +158,18 @@ Proof. exact ex_meaning. Qed.
 Example ex_C10_satisfiable :
   forallb (fun E => ex_check E (ex_tree 0) && ex_check E (ex_tree 1) && ex_check E (ex_tree 3)) shipped_formats = true.
 Proof. exact ex_hypotheses_satisfiable. Qed.
+
+(* second tree: property and instance-property copulas, intension image whose FIRST placeholder is written
+   with a name after its prefix and whose second placeholder stays a component, a product, `c-d` as a name *)
+Example ex_C10_meaning2 :
+  odesugar (ex_tree2 1) =
+    Some (TBox2 Inheritance
+            (TSet SetExtension [TBox2 Inheritance (TName Word [99; 45; 100]%N) (TSet SetIntension [TName VariableQuery [113]%N])])
+            (TSet SetIntension
+               [TImg ImageIntension 0
+                  [TVec Product [TName Word [117]%N; TName VariableDependent [49]%N]; TUnit Placeholder]])).
+Proof. exact ex_meaning2. Qed.
+
+Example ex_C10_satisfiable2 :
+  forallb (fun E => ex_check E (ex_tree2 0) && ex_check E (ex_tree2 2)) shipped_formats = true.
+Proof. exact ex_hypotheses_satisfiable2. Qed.
